@@ -59,6 +59,7 @@ type laidCase struct {
 	Toks     []tokPair       `json:"toks"`
 	Offs     []int           `json:"offs"`
 	Canon    []string        `json:"canon"`
+	Coded    []string        `json:"coded"` // canonical text with the literals of arithmetic kept inside repetition bodies (classification only)
 	Words    [][]string      `json:"words"`
 	Print    string          `json:"print"`
 	Reparsed []any           `json:"reparsed"`
@@ -227,8 +228,8 @@ func evalLaid(lc *laidCase, r *result, r2 *result) []finding {
 			}
 			if r.Crc[i] != want {
 				key := fk
-				if combTag(c) == "" && hasFeature([]any{c}, "arith-sum-in-body") {
-					key = "arith-in-repeat-body"
+				if combTag(c) == "" && hasFeature([]any{c}, "arith-sum-in-body") && i < len(lc.Coded) && r.Crc[i] == crcOf(lc.Coded[i]) {
+					key = "arith-in-repeat-body" // exactly the known deviation: literals hashed as written inside a repetition body
 				}
 				got := ""
 				if i < len(r.Canon) {
